@@ -4,7 +4,7 @@ from checks import e1
 
 ELEMS = {"TC4": 4, "TR": 20, "NTR": 21}
 CMPS = {"less": 0, "greater": 1, "coarse": 2, "stateful": 3, "transparent": 4, "selfptr": 5}
-VECS = {"amcvector": 0, "smallvector2": 1, "fixed8": 2, "stdvector": 3}
+VECS = {"amcvector": 0, "smallvector2": 1, "fixed8": 2, "stdvector": 3, "fixed3": 4}
 BACKS = {"stdset": 0, "flatset": 1}
 ALLOCS = {"amc": 0, "ledgerstd": 2}
 
@@ -50,6 +50,8 @@ def flat_quick():
         inst("flatset", "TC4", "transparent", "stdvector", opts=["--few-ranges", "--seqlen", "2"]),
         inst("flatset", "NTR", "less", "amcvector", K=2, keys=3, opts=["--few-ranges", "--seqlen", "1", "--no-ctors"]),
         inst("flatset", "TR", "greater", "amcvector", std="c++20", opts=["--few-ranges", "--seqlen", "2"]),
+        # underlying FixedCapacityVector<T,3> smaller than the key domain: insertions into a FULL vector are refused
+        inst("flatset", "NTR", "less", "fixed3", keys=4, opts=["--few-ranges", "--seqlen", "2"]),
     ]
 
 
@@ -78,6 +80,9 @@ def flat_thorough():
             keys = 5 if vec == "fixed8" else 6
             m.append(inst("flatset", el, cmp, vec, alloc=al, keys=keys, opts=["--few-ranges", "--seqlen", "2"]))
             n += 1
+    for el, cmp in (("TC4", "coarse"), ("TR", "greater"), ("NTR", "stateful")):
+        m.append(inst("flatset", el, cmp, "fixed3", keys=5, opts=["--few-ranges", "--seqlen", "2"]))  # full underlying vector
+    m.append(inst("flatset", "NTR", "less", "fixed3", K=2, keys=4, opts=["--few-ranges", "--seqlen", "1", "--no-ctors"]))
     for el in elems:
         m.append(inst("flatset", el, "less", "amcvector", keys=4, alloc="ledgerstd"))  # all range sources, sequences <= 3
         m.append(inst("flatset", el, "coarse", "smallvector2", K=2, keys=4, alloc="ledgerstd", opts=["--few-ranges", "--seqlen", "1", "--no-ctors"]))
